@@ -104,3 +104,13 @@ def gen_program(rng, k, ensembles=("canonical", "hamiltonian", "isobaric", "isot
         if ens in ("isobaric", "isotension") and r2.random() < 0.7:
             p["pre_run_edit"]["cell"] = r2.choice([0.96875, 1.03125, 1.0625])
     return p
+
+
+def add_mid_run_edit(p, frac=0.3):
+    """(C03 / C04) the same driver is run twice and the user moves an atom (rescales the box) in between; drawn from a separate stream"""
+    r2 = random.Random(p["seed"] ^ 0x2211)
+    if r2.random() < frac and p["steps"] >= 2:
+        p["mid_run_edit"] = {"after": r2.randint(1, p["steps"] - 1), "atom": r2.randrange(p["natoms"]), "shift": [r2.choice([-0.375, 0.25]), r2.choice([0.0, 0.125]), 0.5]}
+        if p["ensemble"] in ("isobaric", "isotension") and r2.random() < 0.6:
+            p["mid_run_edit"]["cell"] = r2.choice([0.96875, 1.0625])
+    return p
